@@ -643,3 +643,126 @@ pub fn cost_families(out: &mut crate::Out, thorough: bool, seed: u64) {
         put(out, "cost-honest", ops, false);
     }
 }
+
+
+/// Opcode table family: every operator on a grid of boundary operands, in both operand orders, and every index /
+/// slice class on small byte strings and vectors.  Deterministic (no randomness).
+pub fn optable(out: &mut crate::Out) {
+    use OpCode::*;
+    let ints: Vec<U256> = vec![U256::ZERO, U256::ONE, U256::from(2u32), U256::from(3u32), U256::from(7u32), U256::from(255u32), U256::from(256u32), U256::from(65535u32),
+                               U256::from(65536u32), U256::from(u64::MAX), U256::from(u128::MAX), U256::ONE << 128, U256::ONE << 255, U256::MAX - U256::ONE, U256::MAX];
+    let binops: Vec<OpCode> = vec![Add, Sub, Mul, Div, Rem, And, Or, Xor, Eql, Lt, Gt, Shl, Shr];
+    for op in binops.iter() {
+        for a in ints.iter() {
+            for b in ints.iter() {
+                out.put(run_record("optable-int", &[PushI(*a), PushI(*b), op.clone()], Default::default(), 1000));
+            }
+        }
+    }
+    for k in [0u8, 1, 2, 7, 8, 127, 254, 255] {
+        for b in [U256::ZERO, U256::ONE, U256::from(2u32), U256::from(3u32), U256::MAX] {
+            for e in [U256::ZERO, U256::ONE, U256::from(2u32), U256::from(3u32), U256::from(127u32), U256::from(128u32), U256::from(255u32), U256::from(256u32), U256::from(257u32), U256::ONE << 127,
+                      U256::ONE << 254, U256::ONE << 255, U256::MAX] {
+                // the exponent is below the base on the stack
+                out.put(run_record("optable-exp", &[PushI(e), PushI(b), Exp(k)], Default::default(), 1000));
+            }
+        }
+    }
+    for a in ints.iter() {
+        out.put(run_record("optable-int", &[PushI(*a), Not], Default::default(), 100));
+        out.put(run_record("optable-int", &[PushI(*a), ItoB, BtoI], Default::default(), 100));
+        out.put(run_record("optable-int", &[PushI(*a), ItoB, BLength], Default::default(), 100));
+        out.put(run_record("optable-int", &[PushI(*a), TypeQ], Default::default(), 100));
+        out.put(run_record("optable-int", &[PushIC(U256::from(5u32)), PushI(*a), Bez(1), PushIC(U256::from(6u32))], Default::default(), 100));
+        out.put(run_record("optable-int", &[PushIC(U256::from(5u32)), PushI(*a), Bnz(1), PushIC(U256::from(6u32))], Default::default(), 100));
+        out.put(run_record("optable-int", &[PushIC(U256::from(9u32)), PushI(*a), Store, PushI(*a), Load], Default::default(), 100));
+    }
+    // byte strings and vectors of known content; every index / slice class
+    let bytes5 = PushB(vec![10, 11, 12, 13, 14]);
+    let idx: Vec<u32> = vec![0, 1, 2, 4, 5, 6, 255, 65535, 65536];
+    let mkvec = |n: u32| -> Vec<OpCode> {
+        let mut v = vec![VEmpty];
+        for i in 0..n {
+            v.insert(0, PushIC(U256::from(100 + i)));
+        }
+        // pushes below the vector: stack = [104,103,...,100, VEmpty]; VPush takes vector on top and item below
+        for _ in 0..n {
+            v.push(VPush);
+        }
+        v
+    };
+    for i in idx.iter() {
+        out.put(run_record("optable-bytes", &[PushI(U256::from(*i)), bytes5.clone(), BRef], Default::default(), 100));
+        out.put(run_record("optable-bytes", &[PushI(U256::from(77u32)), PushI(U256::from(*i)), bytes5.clone(), BSet], Default::default(), 100));
+        let mut p = vec![PushI(U256::from(*i))];
+        p.extend(mkvec(5));
+        p.push(VRef);
+        out.put(run_record("optable-vec", &p, Default::default(), 100));
+        let mut p = vec![PushB(vec![1, 2]), PushI(U256::from(*i))];
+        p.extend(mkvec(5));
+        p.push(VSet);
+        out.put(run_record("optable-vec", &p, Default::default(), 100));
+        for j in idx.iter() {
+            // slice(begin = j, end = i): stack needs vec on top, then begin, then end
+            out.put(run_record("optable-bytes", &[PushI(U256::from(*i)), PushI(U256::from(*j)), bytes5.clone(), BSlice], Default::default(), 100));
+            let mut p = vec![PushI(U256::from(*i)), PushI(U256::from(*j))];
+            p.extend(mkvec(5));
+            p.push(VSlice);
+            out.put(run_record("optable-vec", &p, Default::default(), 100));
+        }
+    }
+    for v in [U256::ZERO, U256::from(255u32), U256::from(256u32), U256::from(511u32), U256::MAX] {
+        out.put(run_record("optable-bytes", &[PushI(v), bytes5.clone(), BPush], Default::default(), 100));
+        out.put(run_record("optable-bytes", &[bytes5.clone(), PushI(v), BCons], Default::default(), 100));
+    }
+    out.put(run_record("optable-bytes", &[PushB(vec![1, 2]), bytes5.clone(), BAppend], Default::default(), 100));
+    out.put(run_record("optable-bytes", &[bytes5.clone(), PushB(vec![1, 2]), BAppend], Default::default(), 100));
+    let mut p = mkvec(2);
+    p.extend(mkvec(3));
+    p.push(VAppend);
+    out.put(run_record("optable-vec", &p, Default::default(), 100));
+    let mut p = vec![PushIC(U256::from(9u32))];
+    p.extend(mkvec(3));
+    p.push(VPush);
+    out.put(run_record("optable-vec", &p, Default::default(), 100));
+    let mut p = mkvec(3);
+    p.push(PushIC(U256::from(9u32)));
+    p.push(VCons);
+    out.put(run_record("optable-vec", &p, Default::default(), 100));
+    let mut p = mkvec(4);
+    p.push(VLength);
+    out.put(run_record("optable-vec", &p, Default::default(), 100));
+    // loops: counted exactly; nesting; bodies that end exactly at the enclosing end; jumps relative to the right pc
+    for n in 0..5u16 {
+        for m in 0..4u16 {
+            let mut p = vec![PushIC(U256::ZERO), Loop(n, m)];
+            for _ in 0..3 {
+                p.push(PushIC(U256::ONE));
+                p.push(Add);
+            }
+            out.put(run_record("optable-loop", &p, Default::default(), 1000));
+            let mut q = vec![PushIC(U256::ZERO), Loop(2, m + 1), Loop(n, m)];
+            for _ in 0..2 {
+                q.push(PushIC(U256::ONE));
+                q.push(Add);
+            }
+            out.put(run_record("optable-loop", &q, Default::default(), 1000));
+        }
+    }
+    for k in 0..5u16 {
+        let body = vec![PushIC(U256::from(1u32)), PushIC(U256::from(2u32)), PushIC(U256::from(3u32)), PushIC(U256::from(4u32))];
+        for j in [Jmp(k), Bez(k), Bnz(k)] {
+            let mut p = vec![PushIC(U256::ZERO), PushIC(U256::ZERO), j.clone()];
+            p.extend(body.clone());
+            out.put(run_record("optable-jump", &p, Default::default(), 100));
+            let mut p = vec![PushIC(U256::ZERO), PushIC(U256::ONE), j];
+            p.extend(body.clone());
+            out.put(run_record("optable-jump", &p, Default::default(), 100));
+        }
+    }
+    // hash / signature length guards
+    for n in [0u16, 4, 5, 6, 31, 32, 33] {
+        out.put(run_record("optable-crypto", &[bytes5.clone(), Hash(n)], Default::default(), 100));
+        out.put(run_record("optable-crypto", &[PushB(vec![0; 32]), Hash(n)], Default::default(), 100));
+    }
+}
